@@ -15,6 +15,8 @@ import (
 
 	"google.golang.org/genproto/googleapis/api/annotations"
 	"google.golang.org/genproto/googleapis/api/httpbody"
+	"google.golang.org/grpc"
+	"google.golang.org/grpc/metadata"
 	"google.golang.org/protobuf/encoding/protojson"
 	"google.golang.org/protobuf/proto"
 	"google.golang.org/protobuf/reflect/protoreflect"
@@ -47,6 +49,7 @@ type Case struct {
 	Reply          []byte   `json:"reply"`           // wire form of un.All (routes plain/rb-*)
 	RawType        string   `json:"raw_type"`        // HttpBody content type (routes raw / rb-body)
 	RawData        []byte   `json:"raw_data"`
+	HeaderMode     string   `json:"header_mode"` // "", "set" (grpc.SetHeader) or "send" (grpc.SendHeader) before the reply is returned
 }
 
 var (
@@ -109,6 +112,12 @@ func Check(c Case) ([]evid.Violation, info) {
 		}
 	}
 	sd := w.ServiceDesc("un.C4", func(ctx context.Context, fm string, req *dynamicpb.Message) (proto.Message, error) {
+		switch c.HeaderMode {
+		case "set":
+			grpc.SetHeader(ctx, metadata.Pairs("x-c4", "1"))
+		case "send":
+			grpc.SendHeader(ctx, metadata.Pairs("x-c4", "1"))
+		}
 		if strings.HasSuffix(fm, "/Raw") {
 			return &httpbody.HttpBody{ContentType: c.RawType, Data: c.RawData}, nil
 		}
@@ -286,6 +295,7 @@ func genCase(t *rapid.T) Case {
 	if c.Route == "raw" {
 		c.Verb = "GET"
 	}
+	c.HeaderMode = rapid.SampledFrom([]string{"", "", "set", "send"}).Draw(t, "headerMode")
 	nl := rapid.SampledFrom([]int{0, 1, 1, 1, 2, 3}).Draw(t, "nAcceptLines")
 	for i := 0; i < nl; i++ {
 		c.Accept = append(c.Accept, genAcceptLine(t))
@@ -325,7 +335,7 @@ func TestProp(t *testing.T) {
 			hasQ = hasQ || r.Q != 1
 			hasWild = hasWild || r.Sub == "*"
 		}
-		cl := []string{"route=" + c.Route, "reqct=" + c.ContentType, fmt.Sprintf("adm=%d", in.adm)}
+		cl := []string{"route=" + c.Route, "reqct=" + c.ContentType, fmt.Sprintf("adm=%d", in.adm), "headers=" + c.HeaderMode}
 		if in.contested {
 			cl = append(cl, "accept-contested")
 		} else if c.Accept != nil {
@@ -336,7 +346,7 @@ func TestProp(t *testing.T) {
 		nonEmpty := len(c.Reply) > 0 || len(c.RawData) > 0
 		key := ""
 		if nonEmpty && (nranges >= 2 || hasQ || hasWild || c.Route != "plain") {
-			key = fmt.Sprintf("%s|%s|%s|%v|%d|%v|%v|%d", c.Route, c.Verb, c.ContentType, in.contested, in.adm, hasQ, hasWild, nranges)
+			key = fmt.Sprintf("%s|%s|%s|%v|%d|%v|%v|%d|%s", c.Route, c.Verb, c.ContentType, in.contested, in.adm, hasQ, hasWild, nranges, c.HeaderMode)
 			if c.Route == "plain" || strings.HasPrefix(c.Route, "rb-") {
 				key += "|" + strings.Join(c.Accept, "\n")
 			}
